@@ -125,12 +125,12 @@ def check(run):
                                                                             'outside any seeded region on ' + ' -> '.join(bad[0])),
                fn=f, node=x, detail={'unseeded_chain': bad[0]} if bad else None)
     run.floor('C14-PRNG', n, 2)
-    order(run, p, funcs)
-    memo(run, p)
-    argmut(run, p)
-    seedfwd(run, p)
+    run.attempt(order, run, p, funcs)
+    run.attempt(memo, run, p)
+    run.attempt(argmut, run, p)
+    run.attempt(seedfwd, run, p)
     from .c03 import evidence
-    evidence(run, p, 'C14-EVIDENCE')
+    run.attempt(evidence, run, p, 'C14-EVIDENCE')
     run.rules['C14-EVIDENCE'] += ' (a cap on what is seen would make the class chosen depend on which examples come first)'
     from .common import observed_rule
     n = observed_rule(run, 'C14-OBSERVED', p, [f for f in funcs if f.cls is None],
@@ -138,8 +138,8 @@ def check(run):
                       'examples from a categorical column\'s declared levels (.cat.categories, unfiltered value_counts())')
     run.floor('C14-OBSERVED', n, 8)
     from .. import ief
-    ief.run_ief(run, 'C14', [p.fn(MOD + '.extract'), p.fn(MOD + '.pdextract')], triage=triage.IEF)
-    run.floor('C14-IEF', run.units['ief_functions_checked'], 60)
+    run.attempt(ief.run_ief, run, 'C14', [p.fn(MOD + '.extract'), p.fn(MOD + '.pdextract')], triage=triage.IEF)
+    run.floor('C14-IEF', run.units.get('ief_functions_checked', 0), 60)
 
 
 def order(run, p, funcs):
